@@ -140,7 +140,8 @@ func c08Run(r *Run) {
 					answersBool = true
 				}
 			}
-			if isRoot || (answersBool && calls(root.p, f, "GetExtend").any) {
+			// … or that walks the class chain in a loop whatever it returns (a set of type names, a list)
+			if isRoot || (answersBool && calls(root.p, f, "GetExtend").any) || calls(root.p, f, "GetExtend").repeated {
 				seenEntry[f] = true
 				entries = append(entries, entryT{root.p, f})
 			}
